@@ -38,6 +38,7 @@ def run_job(job):
                   prior=job.get('prior'), progress=job.get('progress', False))
     rig.ctx_fail = bool(job.get('ctx_fail') or job.get('prior_abort'))
     rig.prior_abort = job.get('prior_abort')
+    rig.prior_rebind = bool(job.get('prior_rebind'))
     try:
         trace = rig.run()
     finally:
